@@ -236,6 +236,13 @@ static char **parsec_argv_split_inter(const char *src_string, int delimiter,
     }
 
     src_string = p + 1;
+
+    /* the string ends with the delimiter: there is one more (empty) field */
+    if (include_empty && '\0' == *src_string) {
+      arg[0] = '\0';
+      if (PARSEC_SUCCESS != parsec_argv_append(&argc, &argv, arg))
+        return NULL;
+    }
   }
 
   /* All done */
